@@ -350,6 +350,8 @@ def build_tensor(spec: dict, idx: int, run_seed: int, acct: Accounting, ext_file
 
 def flush_ext_files(ext_files: dict) -> None:
     for info in ext_files.values():
+        if not info["chunks"] and not info.get("always"):
+            continue
         path = os.path.join(info["base_dir"], info["location"])
         os.makedirs(os.path.dirname(path) or ".", exist_ok=True)
         buf = bytearray(info["cursor"] + info.get("tail", 0))
